@@ -8,6 +8,7 @@ import (
 	"reflect"
 	"sort"
 	"strings"
+	"verif/checks/c19"
 
 	"github.com/google/jsonschema-go/jsonschema"
 
@@ -500,6 +501,9 @@ func Run(r *ev.Run) {
 			}
 		}
 	})
+	// "keeps every keyword ... marshals again to the same JSON value" also after other Marshal
+	// calls, including calls that failed half-way
+	c19.MarshalHistories(r, "C05 ")
 }
 
 func oddities() []string {
@@ -540,7 +544,8 @@ func oddities() []string {
 	}
 	// numbers that float64 cannot hold exactly, or at all
 	for _, n := range []string{`9007199254740993`, `12345678901234567890`, `0.1000000000000000000001`, `-9007199254740993`, `1e400`, `-1e400`, `1e-400`} {
-		for _, slot := range []string{`{"const":%s}`, `{"enum":[%s]}`, `{"examples":[%s]}`, `{"default":%s}`, `{"x":%s}`, `{"x":[{"a":%s}]}`, `{"minimum":%s}`, `{"multipleOf":%s}`, `{"properties":{"a":{"const":%s,"x":%s}}}`} {
+		for _, slot := range []string{`{"const":%s}`, `{"enum":[%s]}`, `{"examples":[%s]}`, `{"default":%s}`, `{"x":%s}`, `{"x":[{"a":%s}]}`, `{"minimum":%s}`, `{"multipleOf":%s}`, `{"properties":{"a":{"const":%s,"x":%s}}}`,
+			`{"default":%s,"x-note":"hello"}`, `{"properties":{"a":{"default":%s}},"x-note":1}`, `{"items":{"default":[%s],"X":null},"Title":1}`} {
 			out = append(out, strings.ReplaceAll(slot, "%s", n))
 		}
 	}
